@@ -530,7 +530,7 @@ func (this *BlockCompressor) Compress() (int, uint64) {
 			if len(oName) == 0 {
 				oName = iName + ".knz"
 			} else if inputIsDir == true && specialOutput == false {
-				oName = formattedOutName + iName[len(formattedInName):] + ".knz"
+				oName = formattedOutName + internal.RelativePath(formattedInName, iName) + ".knz"
 			}
 		}
 
@@ -562,7 +562,7 @@ func (this *BlockCompressor) Compress() (int, uint64) {
 			if len(oName) == 0 {
 				oName = iName + ".knz"
 			} else if inputIsDir == true && specialOutput == false {
-				oName = formattedOutName + iName[len(formattedInName):] + ".knz"
+				oName = formattedOutName + internal.RelativePath(formattedInName, iName) + ".knz"
 			}
 
 			taskCtx := make(map[string]any)
